@@ -198,7 +198,9 @@ fn runs(out: &mut dyn Write, tier: &str, rng: &mut Rng, st: &mut Stats, tag: &st
                 let mut rd: &[u8] = o;
                 rsbdd::parser::SymbolicBDD::tokenize(&mut rd, None).map(|ts| rsbdd::parser::ParsedFormula::extract_vars(&ts)).unwrap_or_default()
             });
-            match parse_text(text.as_bytes(), ord_syms) { crate::formula::Parsed::Ok(pf) => ser_gf(&gf, &id_table(&pf)), _ => "-".to_string() }
+            // … followed by the real tokenizer's variable table (name:id): "the variable order" of the properties is the
+            // order of these ids, whichever ids an ordering leaves open
+            match parse_text(text.as_bytes(), ord_syms) { crate::formula::Parsed::Ok(pf) => format!("{}@{}", ser_gf(&gf, &id_table(&pf)), show_vars(&pf)), _ => "-".to_string() }
         };
         let (otext, ocl) = match &ordering {
             Some(o) => (hex(o), std::str::from_utf8(o).map(classes_of).unwrap_or_default()),
